@@ -387,7 +387,13 @@ def family_calls(rng, tier):
             pos = dict(zip(['x', 'y', 'z'], argv))
             stmts[-1] = e.render({p: pos[p] for p in ps if p in pos})
             unbound_param = any(p not in pos for p in ps)
-            yield stmts, {"family": "calls", "same": [3, 4, 5, 6] if not unbound_param else [3, 4, 5], "no_change_from": 3}
+            same = [3, 4, 5, 6] if not unbound_param else [3, 4, 5]
+            if ar > 1 and any(v.startswith('[[') for v in argv):
+                # a ragged nested list literal keeps Python lists as elements (literal representation, outside C03):
+                # the @ form cannot pass these values
+                stmts[5] = '0'
+                same.remove(5)
+            yield stmts, {"family": "calls", "same": same, "no_change_from": 3}
 
 
 REC = [
